@@ -726,9 +726,13 @@ class Item:
                 mode = "val"
             if mode == "mut":
                 me = re.match(r"(.+?)\s*\.\s*iter_mut\s*\(\s*\)$", r, re.S)
-                if not me:
-                    raise Undecided("R3 for-index-mut: receiver is not X.iter_mut()")
-                r = me.group(1).strip()
+                m2 = re.match(r"mut\s+([A-Za-z_][A-Za-z0-9_.]*)$", r)   # `for x in &mut v` (the leading & was stripped)
+                if me:
+                    r = me.group(1).strip()
+                elif m2 and recv.startswith("&"):
+                    r = m2.group(1)
+                else:
+                    raise Undecided("R3 for-index-mut: receiver is neither X.iter_mut() nor &mut X")
             if not re.match(r"[A-Za-z_][A-Za-z0-9_.]*$", r):
                 # not a place expression: evaluate it once
                 rv = "vx_recv" if k == 1 else "vx_recv%d" % k
